@@ -255,6 +255,7 @@ pub struct Ctx {
     pub verbose: bool,
     workdir: PathBuf,
     segment: u32,
+    checkpoints: u32,
 }
 
 impl Ctx {
@@ -293,6 +294,7 @@ impl Ctx {
             verbose: a.only_case.is_some(),
             workdir: a.workdir.clone(),
             segment: a.segment,
+            checkpoints: 0,
         })
     }
 
@@ -422,6 +424,49 @@ impl Ctx {
             let _ = writeln!(self.log, "{rec}");
             let _ = self.log.flush();
         }
+    }
+
+    /// Flush everything observed so far as a partial summary and start counting afresh.  Call it
+    /// before a phase whose cases may kill the process, so that a death loses only that phase's
+    /// counters (violations are logged immediately in any case).
+    pub fn checkpoint(&mut self) {
+        if self.only_case.is_some() {
+            return;
+        }
+        self.checkpoints += 1;
+        let mut hashes: Vec<u64> = self.nontrivial.drain().collect();
+        hashes.sort_unstable();
+        let mut bytes = Vec::with_capacity(hashes.len() * 8);
+        for h in &hashes {
+            bytes.extend_from_slice(&h.to_le_bytes());
+        }
+        let _ = std::fs::write(
+            self.workdir.join(format!(
+                "shard-{}.seg{}.ck{}.hashes",
+                self.shard, self.segment, self.checkpoints
+            )),
+            bytes,
+        );
+        let rec = json!({
+            "type": "summary",
+            "partial": true,
+            "shard": self.shard,
+            "evaluations": self.evaluations,
+            "skipped_before_crash": self.skipped_before_crash,
+            "cases_generated": self.case_no,
+            "counters": self.counters,
+            "samples": self.samples,
+            "violation_counts": self.violations,
+            "inconclusive": self.inconclusive,
+        });
+        let _ = writeln!(self.log, "{rec}");
+        let _ = self.log.flush();
+        self.evaluations = 0;
+        self.skipped_before_crash = 0;
+        self.counters.clear();
+        self.samples.clear();
+        self.violations.clear();
+        self.inconclusive.clear();
     }
 
     /// Write the end-of-shard summary.
